@@ -1085,6 +1085,63 @@ func (g *gen) next(x *ref, s *sim, i int) (op, bool) {
 	return op{kind: "write", k: g.ctr}, true
 }
 
+// flapHistory: see Run, 2b.
+func flapHistory(r *lib.RNG) (ops []op, cycles int) {
+	ctr, held := 0, 0
+	cycles = r.Range(2, 5)
+	other := r.Chance(1, 2)
+	for c := 0; c < cycles; c++ {
+		ops = append(ops, op{kind: "link", r: 0})
+		for j, w := 0, r.Range(1, 2); j < w; j++ {
+			ctr++
+			ops = append(ops, op{kind: "write", k: ctr})
+			held++
+		}
+		ops = append(ops, op{kind: "unlink", r: 0})
+		if other && r.Chance(1, 2) {
+			// the second reader serves a few writes and leaves the writer idle again
+			ops = append(ops, op{kind: "link", r: 1})
+			for j, w := 0, r.Range(1, 3); j < w; j++ {
+				ctr++
+				ops = append(ops, op{kind: "write", k: ctr}, op{kind: "ans", r: 1, ak: 'v', k: ctr})
+			}
+			if r.Chance(3, 4) {
+				ops = append(ops, op{kind: "unlink", r: 1})
+			}
+		}
+	}
+	ops = append(ops, op{kind: "link", r: 0})
+	for j, w := 0, r.Range(1, 3); j < w; j++ {
+		ctr++
+		ops = append(ops, op{kind: "write", k: ctr})
+		held++
+	}
+	// the slow reader answers what it holds, oldest first: all of it, or only the stale part before it closes
+	n := held
+	closes := r.Chance(1, 4)
+	if closes {
+		n = r.Range(1, held)
+	}
+	for j := 0; j < n; j++ {
+		ctr++
+		switch r.Intn(6) {
+		case 0:
+			ops = append(ops, op{kind: "ans", r: 0, ak: 'e', k: ctr})
+		case 1:
+			ops = append(ops, op{kind: "ans", r: 0, ak: 'n'})
+		default:
+			ops = append(ops, op{kind: "ans", r: 0, ak: 'v', k: ctr})
+		}
+	}
+	if closes {
+		ops = append(ops, op{kind: "closer", r: 0})
+		for j := 0; j < held-n+1; j++ {
+			ops = append(ops, op{kind: "drop", r: 0})
+		}
+	}
+	return ops, cycles
+}
+
 // ---------------------------------------------------------------- Run
 
 func Run(c *lib.Ctx) {
@@ -1194,6 +1251,18 @@ func Run(c *lib.Ctx) {
 		g := &gen{r: rng.Fork(), n: rng.Range(1, maxReaders), length: rng.Range(2, maxLen), avoid: rng.Chance(1, 2),
 			settle: rng.Chance(1, 2), lagging: rng.Intn(4)}
 		record(runHistory(g.n, g.next), fmt.Sprintf("random history %d", i))
+	}
+
+	// 2b. FLAPPING LINKS: one slow reader is linked and unlinked again and again with its requests left
+	// unanswered (each unlink answers them with a dropped packet: the writer is idle in between, or a
+	// second reader serves some writes meanwhile); at the end it is linked once more, written to, and
+	// answers everything it still holds oldest first – every stale answer must be refused, the new
+	// writes get their own answers. Own RNG: the random histories above keep their stream.
+	frng := lib.NewRNG(c.Seed*7919 + 13)
+	for i, nf := 0, c.Scale(300, 3000); i < nf; i++ {
+		ops, cycles := flapHistory(frng.Fork())
+		c.Hit(fmt.Sprintf("flapping-link-%d-cycles", cycles))
+		record(runHistory(2, fixed(ops)), fmt.Sprintf("flapping link %d (%d cycles)", i, cycles))
 	}
 
 	// 3. thorough: every history `link 0 · x`, |x| ≤ k, over two readers (search + correspondence)
